@@ -1,6 +1,6 @@
 (* C09 (xfab.tools): g is used as given and must have length sin(theta) *)
 From Coq Require Import Reals List.
-From XV Require Import RealLib Mat3 OmegaSolve Cell Gen_tools P09_laue P09_quart P09_tools.
+From XV Require Import RealLib Mat3 OmegaSolve Cell Gen_tools P09_laue P09_quart P09_tools P09_wedge.
 Import ListNotations.
 Open Scope R_scope.
 
@@ -38,3 +38,23 @@ Theorem C09_tools_tth_eq_tth2 : forall U c h wl, is_rot U -> valid_cell c ->
   tools_tth2 (mvmul (mmul U (tools_form_b_mat c)) h) wl = tools_tth c h wl.
 Proof. exact tools_tth_eq_tth2. Qed.
 Print Assumptions C09_tools_tth_eq_tth2.
+
+(* find_omega_wedge: wedge_mat wedge w = Ry(-wedge).Rz(w); wedge_coseta / wedge_a are the code's own coseta and a (a = 0 makes the code divide by zero) *)
+Theorem C09_tools_wedge : forall g tth wedge oms etas,
+  0 < tth < PI -> vx g * vx g + vy g * vy g <> 0 -> cos wedge <> 0 ->
+  tools_find_omega_wedge g tth wedge = (oms, etas) ->
+  let gn := normalise_to tth g in let ce := wedge_coseta g tth wedge in
+  (1 < Rabs ce -> oms = [] /\ etas = []) /\
+  (Rabs ce <= 1 -> wedge_a g tth wedge <> 0 ->
+     exists w1 w2, oms = [w1; w2] /\ etas = [acos ce; - acos ce] /\
+       diffracts (wedge_mat wedge w1) gn tth (acos ce) /\ diffracts (wedge_mat wedge w2) gn tth (- acos ce) /\
+       - PI < w1 <= PI /\ - PI < w2 <= PI).
+Proof. exact tools_find_omega_wedge_sound. Qed.
+Print Assumptions C09_tools_wedge.
+Theorem C09_tools_wedge_complete : forall g tth wedge w,
+  0 < tth < PI -> vx g * vx g + vy g * vy g <> 0 -> cos wedge <> 0 -> wedge_a g tth wedge <> 0 ->
+  let gn := normalise_to tth g in
+  - PI < w <= PI -> vx (mvmul (wedge_mat wedge w) gn) = - (sin (tth / 2) * sin (tth / 2)) ->
+  Rabs (wedge_coseta g tth wedge) <= 1 /\ In w (fst (tools_find_omega_wedge g tth wedge)).
+Proof. exact tools_find_omega_wedge_complete. Qed.
+Print Assumptions C09_tools_wedge_complete.
